@@ -26,6 +26,8 @@ def main():
     wt = '/tmp/seed-' + (name if os.path.isdir('/tmp/seed-' + name) else prop)
     if name.endswith('-2'):
         wt = '/tmp/seed2-' + prop
+    if name.endswith('-3'):
+        wt = '/tmp/seed3-' + prop
     so = os.path.join(wt, 'seed_out')
     meta = json.load(open(os.path.join(so, 'meta.json')))
     demo = meta['demo_cmd']
